@@ -274,7 +274,7 @@ func (em *emitter) _emitExpr(expr ast.Expression, dstType reflect.Type, reg int8
 	case *ast.Slicing:
 
 		exprType := em.typ(expr.Expr)
-		src := em.emitExpr(expr.Expr, exprType)
+		src := em.emitIndexedExpr(expr.Expr, exprType)
 		var low, high int8 = 0, -1
 		var kLow, kHigh = true, true
 		// emit low
@@ -327,6 +327,27 @@ func (em *emitter) _emitExpr(expr ast.Expression, dstType reflect.Type, reg int8
 	}
 
 	return reg, false
+}
+
+// emitIndexedExpr emits expr, with type typ, as the operand of an index
+// expression that is assigned or whose address is taken, or of a slice
+// expression, and returns its register. If expr is an array pointed to by a
+// pointer, as in (*p)[i] = v, &(*p)[i] and (*p)[:], the returned register
+// refers to the pointed array and not to a copy of the array.
+func (em *emitter) emitIndexedExpr(expr ast.Expression, typ reflect.Type) int8 {
+	if typ.Kind() == reflect.Array {
+		if op, ok := expr.(*ast.UnaryOperator); ok && op.Op == ast.OperatorPointer {
+			ptrType := em.typ(op.Expr)
+			ptr := em.emitExpr(op.Expr, ptrType)
+			if ptr < 0 {
+				tmp := em.fb.newRegister(reflect.Pointer)
+				em.changeRegister(false, ptr, tmp, ptrType, ptrType)
+				ptr = tmp
+			}
+			return -ptr
+		}
+	}
+	return em.emitExpr(expr, typ)
 }
 
 // emitBinaryOp emits the code for the binary expression expr and stores the
@@ -948,7 +969,7 @@ func (em *emitter) emitUnaryOp(expr *ast.UnaryOperator, reg int8, regType reflec
 		// &v[i]
 		// (where v is a slice or an addressable array)
 		case *ast.Index:
-			expr := em.emitExpr(operand.Expr, em.typ(operand.Expr))
+			expr := em.emitIndexedExpr(operand.Expr, em.typ(operand.Expr))
 			index := em.emitExpr(operand.Index, intType)
 			pos := operand.Expr.Pos()
 			if canEmitDirectly(exprType.Kind(), regType.Kind()) {
